@@ -1032,9 +1032,13 @@ class sptensor:
             return C
 
         if isinstance(other, ttb.tensor):
-            BB = sptensor(self.subs, other[self.subs][:, None], self.shape)
-            C = self.logical_and(BB)
-            return C
+            if self.nnz == 0:
+                return sptensor(shape=self.shape)
+            # True exactly where self is stored and the dense entry is nonzero
+            keep = np.atleast_1d(other[self.subs]) != 0
+            return sptensor(
+                self.subs[keep], np.ones_like(self.vals[keep]), self.shape
+            )
 
         # Otherwise
         assert False, "The arguments must be two sptensors or an sptensor and a scalar."
